@@ -137,7 +137,7 @@ def main(argv=None):
     # (StepBudget) and are not affected.
     again = sorted(set(unfinished) | {i for i, r in results.items() if r.get("watchdog")})
     retried = 0
-    if again and len(again) <= 200:
+    if again and len(again) <= 24:  # (many stopped cases are a systematic hang, not machine load)
         retried = len(again)
         r2, u2, e2 = run_sharded(prop, [all_cases[i] for i in again], wall, wall_scale=8)
         for k, r in r2.items():
